@@ -240,6 +240,7 @@ type observer struct {
 	nVisits   int
 	maxSnaps  int
 	large     bool
+	unbuiltLater int
 }
 
 func (o *observer) snap(tag string) {
@@ -260,6 +261,13 @@ func (o *observer) snap(tag string) {
 			o.kinds[k] = v
 		}
 	}
+}
+
+func (o *observer) snapForce(tag string) {
+	saved := o.maxSnaps
+	o.maxSnaps = len(o.snaps) + 1
+	o.snap(tag)
+	o.maxSnaps = saved
 }
 
 // track wraps the tracking predicate: during the inter-procedural phase it is only called from
@@ -329,8 +337,24 @@ func numRoutines() int {
 	return n
 }
 
+// excluded: the functions a custom ShouldBuildSummary leaves unbuilt in the `unbuilt` mode (about a third
+// of the user functions, never the entry points of the cases)
+func excluded(f *ssa.Function) bool {
+	if f == nil || f.Pkg == nil || f.Name() == "main" || f.Name() == "init" || strings.HasPrefix(f.Name(), "case_") {
+		return false
+	}
+	h := 0
+	for _, c := range f.String() {
+		h = h*31 + int(c)
+	}
+	if h < 0 {
+		h = -h
+	}
+	return h%3 == 0
+}
+
 // runTaint is taint.Analyze with observation points.
-func runTaint(o *observer, l *taintrun.Loaded, cfg *config.Config) error {
+func runTaint(o *observer, l *taintrun.Loaded, cfg *config.Config, unbuilt bool) error {
 	state, err := dataflow.NewInitializedAnalyzerState(l.Prog, l.Pkgs, config.NewLogGroup(cfg), cfg)
 	if err != nil {
 		return err
@@ -339,8 +363,14 @@ func runTaint(o *observer, l *taintrun.Loaded, cfg *config.Config) error {
 	if err := taint.AnalysisPreamble(state); err != nil {
 		return err
 	}
+	should := dataflow.ShouldBuildSummary
+	if unbuilt {
+		should = func(s *dataflow.AnalyzerState, f *ssa.Function) bool {
+			return !excluded(f) && dataflow.ShouldBuildSummary(s, f)
+		}
+	}
 	analysis.RunIntraProceduralPass(state, numRoutines(), analysis.IntraAnalysisParams{
-		ShouldBuildSummary: dataflow.ShouldBuildSummary, ShouldTrack: o.track(taint.IsNodeOfInterest)})
+		ShouldBuildSummary: should, ShouldTrack: o.track(taint.IsNodeOfInterest)})
 	o.snap("after-intra-pass")
 	o.inter = true
 	for _, spec := range state.Config.TaintTrackingProblems {
@@ -348,6 +378,36 @@ func runTaint(o *observer, l *taintrun.Loaded, cfg *config.Config) error {
 		v := &wrapVisitor{inner: taint.NewVisitor(&spec), o: o}
 		analysis.RunInterProcedural(state, v, analysis.InterProceduralParams{
 			IsEntrypoint: func(n ssa.Node) bool { return taint.IsSourceNode(state, &spec, n) }})
+	}
+	if unbuilt {
+		// the linked graph with created-but-unbuilt callees, even when no entry point was visited
+		if o.nVisits == 0 {
+			o.snap("after-BuildGraph")
+		}
+		o.inter = false
+		var later []*ssa.Function
+		for f, g := range state.FlowGraph.Summaries {
+			if g != nil && !g.Constructed && excluded(f) {
+				later = append(later, f)
+			}
+		}
+		sort.Slice(later, func(i, j int) bool { return later[i].String() < later[j].String() })
+		for _, f := range later {
+			dataflow.BuildSummary(state, f)
+		}
+		o.unbuiltLater = len(later)
+		o.snapForce("after-late-summaries")
+		state.FlowGraph.Sync()
+		o.snapForce("after-Sync")
+		state.FlowGraph.BuildGraph()
+		o.snapForce("after-BuildGraph-2")
+		// and the traversal again on the now complete graph
+		o.inter = true
+		for _, spec := range state.Config.TaintTrackingProblems {
+			spec := spec
+			v := &wrapVisitor{inner: taint.NewVisitor(&spec), o: o}
+			state.FlowGraph.RunVisitorOnEntryPoints(v, func(n ssa.Node) bool { return taint.IsSourceNode(state, &spec, n) }, nil)
+		}
 	}
 	o.snap("end")
 	return nil
@@ -393,6 +453,10 @@ type input struct {
 	back     bool
 	replay   string // content for replay files
 	corpus   bool
+	// unbuilt: unsafe-ignore-non-summarized with a custom ShouldBuildSummary that leaves some callees
+	// created-but-unbuilt at link time; they are summarised afterwards, then Sync + BuildGraph again
+	// (the argot-cli summarize / buildgraph sequence)
+	unbuilt bool
 }
 
 func taintYAML(onDemand bool) string {
@@ -449,6 +513,8 @@ func main() {
 			inputs = append(inputs, input{name: fmt.Sprintf("mugo%d/taint/od=%v", k, od), dir: dir, yaml: taintYAML(od), onDemand: od, replay: string(src)})
 		}
 		inputs = append(inputs, input{name: fmt.Sprintf("mugo%d/backtrace/od=%v", k, k%2 == 1), dir: dir, yaml: backYAML(k%2 == 1), onDemand: k%2 == 1, back: true, replay: string(src)})
+		inputs = append(inputs, input{name: fmt.Sprintf("mugo%d/taint/ignore-unbuilt", k), dir: dir, unbuilt: true, replay: string(src),
+			yaml: taintrun.ConfigYAML(taintrun.Options{ExtraYAML: "  unsafe-ignore-non-summarized: true\n"})})
 	}
 	// the repository's own test programs (their own configuration files)
 	tds := []string{"taint/testdata/closures", "taint/testdata/globals", "taint/testdata/tuples", "taint/testdata/parameters"}
@@ -511,7 +577,7 @@ func main() {
 			if in.back {
 				runErr = runBacktrace(o, l, cfg)
 			} else {
-				runErr = runTaint(o, l, cfg)
+				runErr = runTaint(o, l, cfg, in.unbuilt)
 			}
 		})
 		if p != "" {
@@ -529,7 +595,10 @@ func main() {
 			obs = append(obs, o)
 			obsInput = append(obsInput, in)
 		}
-		rep.Count(fmt.Sprintf("runs:back=%v,onDemand=%v", in.back, in.onDemand))
+		rep.Count(fmt.Sprintf("runs:back=%v,onDemand=%v,ignoreUnbuilt=%v", in.back, in.onDemand, in.unbuilt))
+		if in.unbuilt {
+			rep.Count(fmt.Sprintf("ignore-unbuilt:late-summaries<=%d", bucket(o.unbuiltLater)))
+		}
 		rep.Count(fmt.Sprintf("on-demand-constructions<=%d", bucket(o.nOnDemand)))
 		for k, v := range o.kinds {
 			if v > 0 {
